@@ -28,6 +28,8 @@ def run(ctx):
         ss += S.generate(ctx, 1 if ctx.quick else 3, 1, max_e=7, max_loops=4, routings_per_graph=10, names=[nm], variant="permuted", kinds=("uniform",))
     # as many edges as loops (bouquets of self-loops): the signature is a square matrix; non-symmetric bases
     ss += S.generate(ctx, 4 if ctx.quick else 16, 2, max_e=4, max_loops=3, routings_per_graph=4, names=["tadpole_pair", "rose3"], mass_mode="all")
+    # the last removed edge with parameter exactly 0 (whichever index it has): it drops out of every sum, the others do not
+    ss += S.generate(ctx, 6 if ctx.quick else 30, 4, max_e=6, max_loops=3, routings_per_graph=1, kinds=("zero_last_xi",))
     S.run(ss)
     SC.corr_matrix(ctx, ss)
     SC.generic_scalar_guard(ctx, [s for s in ss if s["routing"]["L"] >= 2][:: 5], k=8, tol=1e-3)
